@@ -334,3 +334,112 @@ pub fn replay(prop: &str, r: &serde_json::Value) -> i32 {
         }
     }
 }
+
+// ---------------------------------------------------------------------------
+// open()/Dump::new on unusual directories (the `dir` of the configuration is an
+// argument too)
+// ---------------------------------------------------------------------------
+
+/// Builds each directory situation, calls `RaftLog::open` and `Dump::new` +
+/// `write_to_string` on it, and reports a panic. Returns the number of calls.
+pub fn run_dir_probes(rep: &crate::report::Reporter) -> u64 {
+    use crate::sut::ScratchDir;
+    let mut n = 0;
+    // one valid chunk image to copy under other names
+    let valid: Vec<(String, Vec<u8>)> = {
+        let mut sut = Sut::open(Cfg::records(3)).expect("seed store");
+        let _ = sut.call(&Op::Append(vec![((1, 0), "x".to_string())]));
+        let _ = sut.flush_wait();
+        sut.close();
+        crate::imagex::read_files(&sut.dir.path)
+    };
+    let head = valid[0].1.clone();
+    type Setup = Box<dyn Fn(&str) -> String>;
+    let situations: Vec<(&str, Setup)> = vec![
+        ("dir-does-not-exist", Box::new(|d: &str| format!("{}/missing", d))),
+        ("dir-is-a-regular-file", Box::new(|d: &str| {
+            let p = format!("{}/file", d);
+            std::fs::write(&p, b"x").unwrap();
+            p
+        })),
+        ("empty-dir", Box::new(|d: &str| d.to_string())),
+        ("dir-path-empty-string", Box::new(|_d: &str| String::new())),
+        ("chunk-name-is-a-directory", Box::new(|d: &str| {
+            std::fs::create_dir_all(format!("{}/r-00_000_000_000_000_000_000.wal", d)).unwrap();
+            d.to_string()
+        })),
+        ("lock-is-a-directory", Box::new(|d: &str| {
+            std::fs::create_dir_all(format!("{}/LOCK", d)).unwrap();
+            d.to_string()
+        })),
+        ("stray-files", Box::new(|d: &str| {
+            for f in ["r-.wal", "r-00_000_000_000_000_000_00x.wal", "r-99_999_999_999_999_999_999.wal", "r-00_000_000_000_000_000_000.wal.tmp", "foo", ".hidden", "r-0.wal", "r-00_000_000_000_000_000_0000.wal", "R-00_000_000_000_000_000_000.WAL"] {
+                std::fs::write(format!("{}/{}", d, f), b"junk").unwrap();
+            }
+            d.to_string()
+        })),
+        ("empty-chunk-file-only", Box::new(|d: &str| {
+            std::fs::write(format!("{}/r-00_000_000_000_000_000_000.wal", d), b"").unwrap();
+            d.to_string()
+        })),
+    ];
+    let mut all: Vec<(String, Setup)> = situations.into_iter().map(|(a, b)| (a.to_string(), b)).collect();
+    // a valid chunk file under a name at the top of the offset range
+    // (names within a few hundred bytes of u64::MAX make the offset arithmetic
+    // overflow; a journal cannot get there — 16 EiB — and no property speaks
+    // about it, so those are not probed; see DESIGN section 10)
+    for off in [1u64 << 63, (1u64 << 63) - 1, 10_000_000_000_000_000_000, u64::MAX - (1 << 32)] {
+        let bytes = head.clone();
+        all.push((
+            format!("valid-chunk-named-offset-{}", off),
+            Box::new(move |d: &str| {
+                std::fs::write(format!("{}/{}", d, crate::sut::chunk_name(off)), &bytes).unwrap();
+                d.to_string()
+            }),
+        ));
+    }
+    for (name, setup) in all {
+        for which in ["RaftLog::open", "Dump::new+write", "open+append+flush"] {
+            let sd = ScratchDir::new();
+            let dir = setup(&sd.path);
+            n += 1;
+            let r = catch_unwind(AssertUnwindSafe(|| {
+                let cfg = Cfg::records(3).to_config(&dir);
+                match which {
+                    "RaftLog::open" => {
+                        let _ = raft_log::RaftLog::<crate::vt::VT>::open(cfg).map(|rl| {
+                            let _ = rl.read(0, u64::MAX).take(8).count();
+                            let _ = rl.stat();
+                            let _ = rl.on_disk_size();
+                        });
+                    }
+                    "Dump::new+write" => {
+                        use raft_log::DumpApi;
+                        let _ = raft_log::Dump::<crate::vt::VT>::new(cfg).map(|d| d.write_to_string());
+                    }
+                    _ => {
+                        if let Ok(mut rl) = raft_log::RaftLog::<crate::vt::VT>::open(cfg) {
+                            let next = rl.log_state().last().map(|l| (l.0, l.1 + 1)).unwrap_or((1, 0));
+                            let _ = rl.append(vec![(next, "probe".to_string())]);
+                            let _ = rl.append(vec![((next.0, next.1 + 1), "probe".to_string())]);
+                            let _ = rl.append(vec![((next.0, next.1 + 2), "probe".to_string())]);
+                            let _ = rl.flush(None);
+                            rl.wait_worker_idle();
+                            let _ = rl.stat();
+                            let _ = rl.on_disk_size();
+                        }
+                    }
+                }
+            }));
+            if let Err(pn) = r {
+                rep.report(Violation {
+                    prop: rep.prop.clone(),
+                    key: format!("panic:{}-on-{}", which, name.split("-offset-").next().unwrap_or(&name)),
+                    what: format!("{} panicked on directory situation '{}': {}", which, name, panic_msg(pn)),
+                    replay: json!({"engine": "dir-probe", "situation": name, "call": which}),
+                });
+            }
+        }
+    }
+    n
+}
